@@ -36,6 +36,7 @@ type C10Op struct {
 	Limit int    `json:"limit,omitempty"` // read
 	Stop  int    `json:"stop,omitempty"`  // stream: stop after this many events (0 = drain)
 	Sub   int    `json:"sub,omitempty"`
+	H     int    `json:"h,omitempty"` // with TwoHandles: 1 = through the second handle on the same database file
 }
 
 type C10Scenario struct {
@@ -46,6 +47,10 @@ type C10Scenario struct {
 	NetFaults  map[int]string `json:"net_faults,omitempty"` // durable-streams: request index -> lost-request / lost-response
 	// ConcOpen (SQLite): the "other" store of the isolation check is created by a second task while the first creates the main one
 	ConcOpen bool `json:"conc_open,omitempty"`
+	// TwoHandles (file-based SQLite): a second store handle is opened on the same database file - another
+	// component of the process, or a restarted writer next to a lingering reader - and part of the operations
+	// go through it; a "close-b" operation closes it again while the first handle stays in use. It is one log.
+	TwoHandles bool `json:"two_handles,omitempty"`
 }
 
 var c10Zones = []*time.Location{
@@ -123,7 +128,7 @@ func genC10Ev(rt *rapid.T) *C10Ev {
 func genC10Op(rt *rapid.T, kinds []string) C10Op {
 	op := C10Op{Kind: rapid.SampledFrom(kinds).Draw(rt, "opKind")}
 	switch op.Kind {
-	case "append":
+	case "append", "append-dead":
 		op.Ev = genC10Ev(rt)
 	case "read":
 		op.From = rapid.IntRange(-1, 40).Draw(rt, "from")
@@ -163,14 +168,25 @@ func genStoreCfg(rt *rapid.T) StoreCfg {
 func genC10(rt *rapid.T) core.Scenario {
 	sc := &C10Scenario{Store: genStoreCfg(rt)}
 	sc.ConcOpen = sc.Store.Kind == "sqlite" && rapid.IntRange(0, 2).Draw(rt, "concOpen") == 2
+	sc.TwoHandles = sc.Store.Kind == "sqlite" && !sc.Store.InMemory && rapid.IntRange(0, 2).Draw(rt, "twoHandles") == 2
 	mode := rapid.IntRange(0, 9).Draw(rt, "mode")
 	n := rapid.IntRange(1, 30).Draw(rt, "nOps")
 	if rapid.IntRange(0, 9).Draw(rt, "long") == 9 {
 		n = rapid.IntRange(30, 120).Draw(rt, "nOpsLong") // push the log past 10 and 100 entries
 	}
 	kinds := []string{"append", "append", "append", "read", "read", "stream", "save", "load"}
+	if sc.Store.Kind != "ds" && rapid.IntRange(0, 2).Draw(rt, "deadAppends") == 2 {
+		kinds = append(kinds, "append-dead")
+	}
+	if sc.TwoHandles {
+		kinds = append(kinds, "close-b")
+	}
 	for i := 0; i < n; i++ {
-		sc.Ops = append(sc.Ops, genC10Op(rt, kinds))
+		op := genC10Op(rt, kinds)
+		if sc.TwoHandles {
+			op.H = rapid.IntRange(0, 1).Draw(rt, "handle")
+		}
+		sc.Ops = append(sc.Ops, op)
 	}
 	if mode >= 8 && !sc.Store.InMemory { // scenario B (a shared-cache in-memory database locks whole tables: sequential use only)
 		nt := rapid.IntRange(2, 4).Draw(rt, "nTasks")
@@ -346,13 +362,53 @@ func (sc *C10Scenario) Execute(t *testing.T) *core.Outcome {
 				out.Probe("lost-ack-append-was-applied")
 			}
 		}
+		var stB eventbus.EventStore
+		var closeB func()
+		if sc.TwoHandles {
+			b, err := env.openStore(sc.Store, "main")
+			if err != nil {
+				out.HarnessErr = "open second handle: " + err.Error()
+				return
+			}
+			stB = b
+			closeB = func() {
+				if c, ok := b.(interface{ Close() error }); ok && stB != nil {
+					c.Close()
+				}
+				stB = nil
+			}
+		}
 		runOp := func(op C10Op) {
+			st, subStore, streamer := st, subStore, streamer
+			if op.H == 1 && stB != nil {
+				st = stB
+				subStore, _ = stB.(eventbus.SubscriptionStore)
+				streamer, _ = stB.(eventbus.EventStoreStreamer)
+			}
+			if op.Kind == "close-b" {
+				if closeB != nil {
+					closeB()
+				}
+				return
+			}
 			switch op.Kind {
-			case "append":
+			case "append", "append-dead":
 				m.seq++
 				ev := op.Ev.event(m.seq)
 				rec.Add("append", len(m.log), 0, "")
-				off, err := st.Append(ctx, ev)
+				actx := ctx
+				if op.Kind == "append-dead" {
+					// an Append given a context that is already cancelled: it may refuse (then nothing of it may ever
+					// show up, and the log stays a gap-free, resumable sequence) or it may not look at the context
+					c, cancel := context.WithCancel(ctx)
+					cancel()
+					actx = c
+				}
+				off, err := st.Append(actx, ev)
+				if err != nil && op.Kind == "append-dead" {
+					out.Fault("append-with-cancelled-context-refused")
+					return
+				}
 				if err != nil {
 					if srv != nil && (srv.Fired["lost-request"]+srv.Fired["lost-response"]) > 0 {
 						resolveLostAck(ev)
@@ -700,6 +756,42 @@ func (sc *C10Scenario) concurrentPhase(out *core.Outcome, st eventbus.EventStore
 	}
 }
 
-var propC10 = &core.Property{ID: "C10", Gen: genC10, New: func() core.Scenario { return &C10Scenario{} }}
+// c10Long: explicitly constructed long histories - logs that pass the sizes where internal pages, chunks and
+// caps tend to sit (1024, 1025, 2048 ...) - read back in chains with limits around those sizes, streamed
+// from the start and from the middle, with offsets resumed from every provenance.
+func c10Long(tier string, yield func(core.Scenario)) string {
+	stores := []StoreCfg{{Kind: "mem"}, {Kind: "sqlite"}}
+	if tier == "thorough" {
+		stores = append(stores, StoreCfg{Kind: "sqlite", StreamBatch: 100}, StoreCfg{Kind: "sqlite", InMemory: true})
+	}
+	n := 0
+	for _, st := range stores {
+		for _, size := range []int{1025, 2100} {
+			sc := &C10Scenario{Store: st}
+			ev := func(i int) *C10Ev {
+				return &C10Ev{Type: "T", Data: fmt.Sprintf(`{"k":%d}`, i), Sec: int64(1700000000 + i), Zone: 0}
+			}
+			for i := 0; i < size; i++ {
+				sc.Ops = append(sc.Ops, C10Op{Kind: "append", Ev: ev(i)})
+			}
+			for _, lim := range []int{0, 1000, 1023, 1024, 1025, 2048} {
+				sc.Ops = append(sc.Ops, C10Op{Kind: "read", From: -1, Limit: lim})
+			}
+			// resume points: the offsets returned so far sit in the model's list (appends first, then next offsets)
+			for _, from := range []int{0, 1, 1022, 1023, 1024, size - 2, size - 1, size, size + 1, size + 3} {
+				sc.Ops = append(sc.Ops, C10Op{Kind: "read", From: from, Limit: 0}, C10Op{Kind: "stream", From: from}, C10Op{Kind: "read", From: from, Limit: 1024})
+			}
+			sc.Ops = append(sc.Ops, C10Op{Kind: "stream", From: -1}, C10Op{Kind: "stream", From: -1, Stop: 1030})
+			for i := 0; i < 3; i++ {
+				sc.Ops = append(sc.Ops, C10Op{Kind: "append", Ev: ev(size + i)}, C10Op{Kind: "read", From: size - 1, Limit: 0}, C10Op{Kind: "stream", From: 1024})
+			}
+			n++
+			yield(sc)
+		}
+	}
+	return fmt.Sprintf("%d explicitly constructed long histories (1025 and 2100 appends, then reads with limits 0/1000/1023/1024/1025/2048, reads and streams resumed around positions 1023-1025 and the tail, more appends)", n)
+}
+
+var propC10 = &core.Property{ID: "C10", Gen: genC10, New: func() core.Scenario { return &C10Scenario{} }, Explicit: c10Long}
 
 func TestC10(t *testing.T) { core.RunProperty(t, propC10) }
